@@ -24,30 +24,31 @@ import (
 
 // attempt is what one call observed.
 type attempt struct {
-	N                    int    `json:"n"`
-	Returned             bool   `json:"returned"`
-	ElapsedNS            int64  `json:"elapsed_ns"`
-	Elapsed              string `json:"elapsed"`
-	ErrClass             string `json:"result"`
-	ErrText              string `json:"error_text,omitempty"`
-	TimedOut             bool   `json:"timed_out"`
-	Success              bool   `json:"success"`
-	PayloadOK            bool   `json:"payload_ok,omitempty"`
-	AnsweredBeforeReturn bool   `json:"peer_answered_before_return"`
-	PeerSawRequest       bool   `json:"peer_saw_request"`
-	RegAtReturn          int    `json:"registry_size_at_return"`
-	RegAfterPoll         int    `json:"registry_size_after_poll"`
-	EffTimeoutNS         int64  `json:"fctx_timeout_ns"`
-	HasDeadline          bool   `json:"tocontext_has_deadline"`
-	Parked               bool   `json:"parked_in_transport,omitempty"`
-	GoroutineState       string `json:"goroutine_state,omitempty"`
-	Goroutine            string `json:"goroutine,omitempty"`
-	ReturnedAfterRelease bool   `json:"returned_after_peer_released,omitempty"`
-	FollowUp             string `json:"follow_up,omitempty"`
-	RequestHex           string `json:"request_frame_hex,omitempty"`
-	Harness              string `json:"harness_problem,omitempty"`
-	HealthyControl       string `json:"healthy_control,omitempty"` // stalledconn: the request made before the connection was stalled
-	ConnStatus           string `json:"nats_conn_status_at_return,omitempty"`
+	N                    int      `json:"n"`
+	Returned             bool     `json:"returned"`
+	ElapsedNS            int64    `json:"elapsed_ns"`
+	Elapsed              string   `json:"elapsed"`
+	ErrClass             string   `json:"result"`
+	ErrText              string   `json:"error_text,omitempty"`
+	TimedOut             bool     `json:"timed_out"`
+	Success              bool     `json:"success"`
+	PayloadOK            bool     `json:"payload_ok,omitempty"`
+	AnsweredBeforeReturn bool     `json:"peer_answered_before_return"`
+	PeerSawRequest       bool     `json:"peer_saw_request"`
+	RegAtReturn          int      `json:"registry_size_at_return"`
+	RegAfterPoll         int      `json:"registry_size_after_poll"`
+	EffTimeoutNS         int64    `json:"fctx_timeout_ns"`
+	HasDeadline          bool     `json:"tocontext_has_deadline"`
+	Parked               bool     `json:"parked_in_transport,omitempty"`
+	GoroutineState       string   `json:"goroutine_state,omitempty"`
+	Goroutine            string   `json:"goroutine,omitempty"`
+	ReturnedAfterRelease bool     `json:"returned_after_peer_released,omitempty"`
+	FollowUp             string   `json:"follow_up,omitempty"`
+	RequestHex           string   `json:"request_frame_hex,omitempty"`
+	Harness              string   `json:"harness_problem,omitempty"`
+	HealthyControl       string   `json:"healthy_control,omitempty"` // stalledconn: the request made before the connection was stalled
+	ConnStatus           string   `json:"nats_conn_status_at_return,omitempty"`
+	Reuse                *attempt `json:"reused_fctx_request,omitempty"` // publishrefused: the next request with the same FContext
 }
 
 // peerFlags is the peer-side state of one attempt (one mutex).
@@ -385,6 +386,12 @@ type c13env struct {
 	client *nats.Conn
 	peer   *nats.Conn
 	seq    atomic.Int64
+
+	// a second broker advertising max_payload 4 KiB (publish-refused cases)
+	small       *rig.NatsServer
+	smallClient *nats.Conn
+	smallPeer   *nats.Conn
+	smallErr    error
 }
 
 func newC13Env() (*c13env, error) {
@@ -402,10 +409,24 @@ func newC13Env() (*c13env, error) {
 		ns.Stop()
 		return nil, err
 	}
+	if e.small, e.smallErr = rig.StartNatsMaxPayload(c13SmallMaxPayload); e.smallErr == nil {
+		if e.smallClient, e.smallErr = e.small.Connect(); e.smallErr == nil {
+			e.smallPeer, e.smallErr = e.small.Connect()
+		}
+	}
 	return e, nil
 }
 
 func (e *c13env) stop() {
+	if e.smallClient != nil {
+		e.smallClient.Close()
+	}
+	if e.smallPeer != nil {
+		e.smallPeer.Close()
+	}
+	if e.small != nil {
+		e.small.Stop()
+	}
 	e.client.Close()
 	e.peer.Close()
 	e.ns.Stop()
@@ -541,7 +562,7 @@ func attemptHTTP(c c13case, body []byte) *attempt {
 		io.WriteString(w, resp)
 	}))
 	ht := &http.Transport{}
-	tr := frugal.NewFHTTPTransportBuilder(&http.Client{Transport: ht}, srv.URL).Build()
+	tr := frugal.NewFHTTPTransportBuilder(&http.Client{Transport: ht, Timeout: c.clientTimeout()}, srv.URL).Build()
 	tr.Open()
 	fctx, payload, want := newCtx(c, body)
 	a := invoke(callSpec{c: c, tr: tr, fctx: fctx, payload: payload, want: want, flags: flags, release: open})
